@@ -43,7 +43,8 @@ structure Ready (cs : List ICon) (n : Nat) (sR : LPState) : Prop where
 theorem setup_phase1_extra (s : LPState) (hF : Fresh s) (s' : LPState) (b e : Nat)
     (h : ppcSetup s = .phase1 s' b e) :
     (∃ nn j, MapOK s'.mapping nn s.external_space_dim j ∧ 1 + j ≤ artStart b s'.numCols) ∧
-    s'.obj = s.obj ∧ s'.maximize = s.maximize ∧ s'.pricing = s.pricing := by
+    s'.obj = s.obj ∧ s'.maximize = s.maximize ∧ s'.pricing = s.pricing ∧
+    s'.external_space_dim = s.external_space_dim := by
   cases hp : parseConstraints s with
   | none =>
     exfalso
@@ -65,7 +66,7 @@ theorem setup_phase1_extra (s : LPState) (hF : Fresh s) (s' : LPState) (b e : Na
       by_cases ha : (C.N - C.isSat.count true) > 0
       · rw [if_pos ha, if_pos (by unfold InsCtx.SL InsCtx.V; omega)]
       · rw [if_neg ha, if_neg (by simp)]; rw [hnc]; omega
-    refine ⟨⟨C.nn, C.j, by rw [f5, ← c2]; exact C.hM, by rw [hstart]; unfold InsCtx.SL InsCtx.V; omega⟩, f7, f8, f9⟩
+    refine ⟨⟨C.nn, C.j, by rw [f5, ← c2]; exact C.hM, by rw [hstart]; unfold InsCtx.SL InsCtx.V; omega⟩, f7, f8, f9, f6⟩
 
 theorem ppcTrivial_done_status (s : LPState) (b e : Nat) (s' : LPState) (h : ppcTrivial s b e = .done s') :
     s'.status = .OPTIMIZED ∨ s'.status = .UNBOUNDED := by
@@ -104,7 +105,8 @@ theorem ppc_fresh (fc : Chooser) (hfc : ChooserOK fc) (fuel : Nat) (s sR : LPSta
     (sR.status = .UNSATISFIABLE ∧ ∀ x, ¬ csSem s.input_cs x) ∨
     ((sR.status = .OPTIMIZED ∨ sR.status = .UNBOUNDED) ∧ sR.tableau = [] ∧ ∃ x, csSem s.input_cs x) ∨
     (sR.status = .SATISFIABLE ∧ Ready s.input_cs s.external_space_dim sR ∧
-      sR.obj = s.obj ∧ sR.maximize = s.maximize ∧ sR.pricing = s.pricing) := by
+      sR.obj = s.obj ∧ sR.maximize = s.maximize ∧ sR.pricing = s.pricing ∧
+      sR.external_space_dim = s.external_space_dim) := by
   obtain ⟨b1i, b1ii, -⟩ := tableau_setup_solutions s hF
   unfold processPendingConstraints at h
   cases hs : ppcSetup s with
@@ -146,7 +148,7 @@ theorem ppc_fresh (fc : Chooser) (hfc : ChooserOK fc) (fuel : Nat) (s sR : LPSta
     rw [hs] at h
     simp only at h
     have hP := setup_phase1_canon s hF hlg s' b e hs
-    obtain ⟨⟨nn, jj, hMok, hjj⟩, k1, k2, k3⟩ := setup_phase1_extra s hF s' b e hs
+    obtain ⟨⟨nn, jj, hMok, hjj⟩, k1, k2, k3, k4⟩ := setup_phase1_extra s hF s' b e hs
     obtain ⟨g1, g2⟩ := b1ii s' b e hs
     cases hrun : computeSimplexWith (chooserOf fc s'.pricing) fuel s'.tab with
     | none => rw [hrun] at h; cases h
@@ -175,7 +177,7 @@ theorem ppc_fresh (fc : Chooser) (hfc : ChooserOK fc) (fuel : Nat) (s sR : LPSta
           simp only [Bool.false_eq_true, if_false]
           have hstart : artStart b s'.numCols = s'.numCols - 1 := by unfold artStart; rw [hb]; simp
           rw [hstart] at hjj
-          refine ⟨by first | rfl | trivial, ⟨?_, ⟨nn, jj, hMok, by simp only [computeGenerator, LPState.withTab]; rw [hlen]; exact hjj⟩, ?_, ?_⟩, k1, k2, k3⟩
+          refine ⟨by first | rfl | trivial, ⟨?_, ⟨nn, jj, hMok, by simp only [computeGenerator, LPState.withTab]; rw [hlen]; exact hjj⟩, ?_, ?_⟩, k1, k2, k3, k4⟩
           · simp only [computeGenerator, LPState.withTab]; exact hCt.toTB
           · intro y hy hsy
             simp only [computeGenerator, LPState.withTab] at hy hsy ⊢
@@ -220,7 +222,7 @@ theorem ppc_fresh (fc : Chooser) (hfc : ChooserOK fc) (fuel : Nat) (s sR : LPSta
           obtain ⟨e1, e2, e3⟩ := erase_artificials_valid b e s'.numCols t hb1 hbe hP.eEnd hA
           obtain ⟨e4, e5⟩ := eraseArtificials_canonTB b e s'.numCols t hb1 hbe hP.eEnd
             (by rw [← hlen]; exact hCt.toTB) hA hlen
-          refine ⟨by first | rfl | trivial, ⟨?_, ⟨nn, jj, hMok, by simp only [computeGenerator, LPState.withTab]; rw [e5]; omega⟩, ?_, ?_⟩, k1, k2, k3⟩
+          refine ⟨by first | rfl | trivial, ⟨?_, ⟨nn, jj, hMok, by simp only [computeGenerator, LPState.withTab]; rw [e5]; omega⟩, ?_, ?_⟩, k1, k2, k3, k4⟩
           · simp only [computeGenerator, LPState.withTab]; rw [e5]; exact e4
           · intro y hy hsy
             simp only [computeGenerator, LPState.withTab] at hy hsy ⊢
